@@ -422,6 +422,11 @@ def method(I, recv: Any, name: str, pos: list, kw: dict, st: State) -> Iterator[
     if isinstance(recv, extract.Rx):
         if name in ("match", "search", "fullmatch"):
             s = pos[0]
+            if isinstance(s, str):
+                import re as _re
+
+                yield st, SMatch(getattr(_re.compile(recv.pattern, recv.flags), name)(s) is not None, recv.pattern)
+                return
             if not is_strish(s):
                 if V.is_z3(s) and s.sort() == V.Val:
                     s = V.Val.s(s)
